@@ -2053,6 +2053,7 @@ def filter_matrix_rows(A, theta, diagonal=False, lump=False):
     if A.format == 'bsr':
         blocksize = A.blocksize
     Aformat = A.format
+    Ain = A
     A = A.tocsr()
 
     if (theta < 0) or (theta >= 1.0):
@@ -2064,7 +2065,9 @@ def filter_matrix_rows(A, theta, diagonal=False, lump=False):
                                     A.indices, A.data, lump)
         A.eliminate_zeros()
         if Aformat == 'bsr':
+            # tocsr() made a copy: write the filtered matrix back to the caller's object
             A = A.tobsr(blocksize=blocksize)
+            Ain.data, Ain.indices, Ain.indptr = A.data, A.indices, A.indptr
         return None  # inplace
 
     # Apply drop-tolerance to each row of A.  We apply the drop-tolerance with
